@@ -375,7 +375,7 @@ _add(
          "expected number of folds (1 iff trainer and that cell's layer are training, else 0) and probe monitors for "
          "holding the current attribute of their own layer. One evaluation = one operation; non-trivial = everything but "
          "bare mode switches; distinct = (operation, trainer kind, layer, registration counts, sharing, modes).",
-    required=["layer_steps", "slot_observations_checked", "probe_values_checked", "trainer_steps", "listing_checks", "rejected_duplicate_registrations", "cells_died_without_removal", "unit_listing_checks", "repeated_add_monitor_calls", "probes_of_other_monitor_kinds", "probes_on_cell_alias_attributes"],
+    required=["layer_steps", "slot_observations_checked", "probe_values_checked", "trainer_steps", "listing_checks", "rejected_duplicate_registrations", "cells_died_without_removal", "unit_listing_checks", "repeated_add_monitor_calls", "probes_of_other_monitor_kinds", "probes_on_cell_alias_attributes", "trainer_clears_with_keepshape"],
     floor={"quick": 100, "thorough": 300},
     text="Held on every operation sequence explored (apart from listed findings): fold counts per registered monitor "
          "slot follow an explicit registration / mode state machine after every layer step, probe monitors hold the "
